@@ -135,58 +135,39 @@ func dirParams(d string) string {
 	return d[1 : len(d)-1]
 }
 
-// consumes: does this directive take at least one argument whenever it runs?
-func consumes(d string) bool {
+// simpleConsumer: a directive that takes (at least) one argument every time it
+// runs and never moves backwards in the argument list.
+func simpleConsumer(d string) bool {
 	if len(d) < 2 {
 		return false
-	}
-	p := dirParams(d)
-	if strings.ContainsAny(p, "vV") {
-		return true
 	}
 	c := d[len(d)-1]
 	if 'a' <= c && c <= 'z' {
 		c -= 'a' - 'A'
 	}
 	switch c {
-	case 'A', 'S', 'D', 'B', 'O', 'X', 'R', 'C', 'F', 'E', 'G', '$', 'W', '?', '[':
+	case 'A', 'S', 'D', 'B', 'O', 'X', 'R', 'C', 'F', 'E', 'G', '$', 'W':
 		return true
-	case 'P', '*':
-		return !strings.ContainsAny(p, ":@")
 	}
 	return false
 }
 
-// endlessIteration: the control string holds a ~{ or ~@{ without an iteration
-// limit whose body (up to the matching ~}) consumes no argument. Common Lisp
-// defines that to iterate until the arguments are used up, i.e. forever.
+// endlessIteration: the control string holds an iteration directive without
+// an iteration limit (~{ or ~@{, no leading numeric parameter) that is not
+// IMMEDIATELY followed by a directive that consumes an argument on every pass.
+// Common Lisp defines such an iteration to go on until the arguments are used
+// up, i.e. possibly forever - like (loop). Those strings are not enumerated;
+// what is kept terminates by contract, so a hang there is a finding.
 func endlessIteration(dirs []string) bool {
 	for i, d := range dirs {
-		if d[len(d)-1] != '{' || len(d) < 2 {
+		if len(d) < 2 || d[len(d)-1] != '{' {
 			continue
 		}
 		p := dirParams(d)
 		if strings.Contains(p, ":") || 0 < len(p) && '0' <= p[0] && p[0] <= '9' {
-			continue
+			continue // one sublist per pass / at most n passes
 		}
-		depth, closed, eats := 0, false, false
-		for _, b := range dirs[i+1:] {
-			c := b[len(b)-1]
-			if len(b) < 2 {
-				continue
-			}
-			if c == '{' {
-				depth++
-			} else if c == '}' {
-				if depth == 0 {
-					closed = true
-					break
-				}
-				depth--
-			}
-			eats = eats || consumes(b)
-		}
-		if closed && !eats {
+		if i+1 < len(dirs) && !simpleConsumer(dirs[i+1]) {
 			return true
 		}
 	}
